@@ -20,6 +20,11 @@ impl TryFrom<String> for BuildpackApi {
         // If no minor version is specified, it defaults to `0`.
         let (major, minor) = &value.split_once('.').unwrap_or((&value, "0"));
 
+        // A sign is not permitted, however `u64::from_str` accepts a leading `+`.
+        if major.starts_with('+') || minor.starts_with('+') {
+            return Err(Self::Error::InvalidBuildpackApi(value));
+        }
+
         Ok(Self {
             major: major
                 .parse()
